@@ -4,7 +4,7 @@ Tie: exact correspondence of xitorch.Packer against coq/Model/Packer.v (run by v
 on random structures x aliasing patterns x operation sequences (valid and malformed).
 Oracle (implementation alone): the property clauses themselves."""
 from __future__ import annotations
-import itertools, copy
+import itertools, copy, collections
 import torch
 from vlib import cnat, cZ, clist, cbool, coq_bool_cases, coq_show
 
@@ -22,6 +22,10 @@ TRUSTED = ["correspondence harness tools/props/c20.py (generator, canonicalisati
 ASSUMPTIONS = ["tensors inside tuples are opaque to Packer (as in the source); `a` passed to "
                "construct_from_tensor is one-dimensional unless the structure has a single slot"]
 HEADER = "From XV Require Import Model.Packer Model.PackerEq.\nFrom Coq Require Import ZArith.\n"
+
+
+class DictSub(dict):
+    """a dict subclass: its instances have a __dict__ as well"""
 
 
 class Obj:
@@ -70,7 +74,10 @@ def build(spec, pool):
     if k == "Tup":
         return tuple(build(s, pool) for s in spec[1])
     if k == "D":
-        return {"k%d" % kk: build(s, pool) for kk, s in spec[1]}
+        # plain dicts and dict subclasses whose instances also carry a __dict__ (OrderedDict, user subclasses): all of them are
+        # dicts for Packer (round-3 seed C20/8: the attribute branch of _put_tensors tested before the dict branch)
+        cls = (dict, collections.OrderedDict, DictSub)[(sum(kk for kk, _ in spec[1]) + len(spec[1])) % 3]
+        return cls(("k%d" % kk, build(s, pool)) for kk, s in spec[1])
     if k == "O":
         return Obj(**{"k%d" % kk: build(s, pool) for kk, s in spec[1]})
     raise AssertionError(k)
